@@ -128,7 +128,9 @@ Inductive c13ecase :=
 (* an append outside the edit language of C13_full (a message appended to a publish topic): the
    two versions as printed; the model must reproduce both, validity = acceptance on both sides,
    and the embedding is evaluated on the REAL descriptors *)
-| CAppendPair (bd bd' : bundle) (pkg : str) (ok ok' okall okall' embeds : bool) (files files' : list dfile).
+| CAppendPair (bd bd' : bundle) (pkg : str) (ok ok' okall okall' embeds : bool) (files files' : list dfile)
+(* a pair of the plain edit language (J5sEdit.edit, e.g. EAppendTopicMsg) generated by this runner's streams *)
+| CPlainEdit (c : c13case).
 
 Definition c13e_check (c : c13ecase) : bool :=
   match c with
@@ -144,4 +146,5 @@ Definition c13e_check (c : c13ecase) : bool :=
       compile_check bd pkg ok files && compile_check bd' pkg ok' files' &&
       Bool.eqb (valid bd) okall && Bool.eqb (valid bd') okall' &&
       (if ok && ok' then Bool.eqb (files_ext_b files files') embeds else true)
+  | CPlainEdit c => c13_check c
   end.
